@@ -107,6 +107,17 @@ class Scenario:
             raise ToolError("HTTP-style %s through node %d failed: %s" % ("deregister" if dereg else "register", via, r))
         self.ev(ev="hdereg" if dereg else "hreg", a=a)
 
+    def hupd(self, via, a, at):
+        """an HTTP update (weight / enabled) of an address a gRPC connection holds, sent to node `via`: it is applied by the
+        node responsible for the service and must reach every node"""
+        ip, port = ADDRS[a]
+        en, w = ATTRS[at]
+        r = self.c.nodes[via].call({"op": "ns_http_register", "service": SVC, "ip": ip, "port": port, "weight": w, "enabled": en})
+        self.ops.append({"op": "hupd", "via": via, "a": a, "at": at, "res": r.get("res")})
+        if r.get("res") != "ok":
+            raise ToolError("HTTP update through node %d failed: %s" % (via, r))
+        self.ev(ev="hupd", a=a, at=at)
+
     def close(self, c):
         self.clients[c].close()
         self.closed.add(c)
@@ -194,6 +205,18 @@ class Scenario:
                 for via, h in ((3, "h1"), (1, "h2")):
                     self.hreg(via, h, weight=3.0)
                     self.hreg(via, h, dereg=True)
+                self.settle_and_read(rounds=2)
+            elif self.kind == "http_update_of_grpc_instance":
+                # instances held by connections of all three nodes (one service, so at least two of them are not held by the
+                # node responsible for the service) are updated over HTTP through yet another node
+                self.open_clients([1, 2, 3])
+                self.reg("c1", "a1", "w2")
+                self.reg("c2", "a2", "w2")
+                self.reg("c3", "a3", "w2")
+                time.sleep(2.0)
+                self.hupd(2, "a1", "w3")
+                self.hupd(3, "a2", "w4")
+                self.hupd(1, "a3", "w3")
                 self.settle_and_read(rounds=2)
             elif self.kind == "node_death":
                 self.open_clients([1, 2, 2, 3])
@@ -305,7 +328,7 @@ def run(tier):
     c.add_negative_control("Distro where a sync update leaves the key in the old client's index violates Converges (the "
                            "anti-entropy round keeps deleting and re-fetching a live instance)", n["violated"])
 
-    kinds = ["takeover", "update_then_deregister", "node_death"] + ["random"] * (5 if quick else 30)
+    kinds = ["takeover", "update_then_deregister", "http_update_of_grpc_instance", "node_death"] + ["random"] * (5 if quick else 30)
     jobs = [(os.path.join(sc_dir, "s%d" % i), c.seed * 1000 + i, k) for i, k in enumerate(kinds)]
 
     def one(j):
